@@ -127,7 +127,8 @@ def groups(tier):
     # four-state tables with finite sub-languages (the three-state catalogue has only 4 tables with a finite non-atomic state)
     nf = len(e2e.tables("F4"))
     dbsf = ("base", "forget", "forest")
-    optsf = ("finite",) if tier == "quick" else ("finite", "two-finite", "finite-ev", "inferral-factory-finite")
+    # "symmetry-finite": the specifications contain equivalence rules / paths next to the verified classes
+    optsf = ("finite",) if tier == "quick" else ("finite", "symmetry-finite", "two-finite", "finite-ev", "inferral-factory-finite")
     for db in dbsf:
         for opt in optsf:
             for lo in range(0, nf, 128):
